@@ -36,6 +36,12 @@ CHECKS = {
         note="Trusted: Lean kernel; correspondence harness; SQLite PK enforcement; SQL window-function / legacy relation find-first are tied by correspondence (their rank semantics is the minRank theorem).",
         design="DESIGN.md §5 C03",
     ),
+    "C17": dict(
+        technique="Lean 4 proof (sorted-permutation lemmas, registry size invariant, bound theorems for all four expiry modes) + two-client operation-sequence correspondence under a fake clock; twin cached/uncached client oracle for registry caches",
+        text="sortCache is a sorted permutation; CacheRegistry set/pop keep size = sum of entry sizes with distinct keys; after _expire_cache: files <= threshold, distinct datasets <= threshold, tracked size <= threshold or cache empty, no entry older than the threshold for every clock value; move_to_cache leaves at most threshold+1 files — all proved in Lean 4 for every registry content. The hand model is tied to DatastoreCacheManager by seeded sequences on two real managers sharing a directory under injected clock/ctimes (registry keys, tracked size, directory listing after every op). Registry caches: a client inside caching_context() is compared after every write with an uncached client on the same repository.",
+        note="Trusted: Lean kernel; correspondence harness with patched os.stat/datetime inside cache_manager; registry-cache transparency is decided by the twin-client oracle on sampled histories (no Lean model of the registry caches yet); syscall-level races between processes are not exhibited.",
+        design="DESIGN.md §5 C17",
+    ),
 }
 
 NOT_YET = {}
